@@ -1,6 +1,7 @@
 """C08 - viability / necessity labels are the greatest fixed point, in any node order.
 Apriori!GFPV / GFPN; spec-level theorem GfpCorrect (solution, dominates every solution) checked by TLC for every
-enumerated graph; every graph replayed in EVERY node order (n <= 4) through add_node + calculate_viability_and_necessity."""
+enumerated graph; every graph replayed in EVERY node order (n <= 4) through add_node + calculate_viability_and_necessity;
+Gen_AprioriBig: parametrised families of up to 800-900 nodes (solution + induction checked by TLC) in 7 stored orders."""
 LEVEL = 'model_checking'
 
 
@@ -8,7 +9,7 @@ def run(run):
     quick = run.tier == 'quick'
     run.rule = ('cases = labelled graphs enumerated by TLC (all kind assignments, all parent sets incl. cycles and '
                 'self-loops, defense status in {0, 0.5, 1}, existence status, TTC distribution flags), each analysed in '
-                'every permutation of the node list; non-trivial = graph with at least one edge; distinct by graph')
+                'every permutation of the node list (families of larger graphs: 7 stored orders); non-trivial = graph with at least one edge; distinct by graph')
     run.assumptions = ['labels start at their defaults (analysis of an already analysed graph is not explored)',
                        'TTC kinds: none, Enabled / Disabled, one named distribution; arithmetic TTCs not explored']
     # (A) design level: the algorithm as a step machine reaches the greatest fixed point in every order
@@ -22,6 +23,17 @@ def run(run):
     run.gen_replay('Gen_Apriori', 'Gen_Apriori.cfg', A, {'seed': run.seed},
                    env={'VERIF_N': 3, 'VERIF_KINDS': 'oad', 'VERIF_SELFLOOPS': 0}, timeout=900,
                    name='all 3-node graphs over {or, and, defense} without self-loops')
+    # larger graphs: families of 12 / 120 / 800 nodes (chains, a cycle through the whole chain, ladders, skip links, fans
+    # below two sources; every kind pattern, source kind and status, a distribution TTC in the middle); expected labels
+    # = the same fixed-point iteration, checked by TLC to be a solution, equal to GFPV / GFPN on the short members and
+    # equal to the closed form by induction on chains; replayed in 7 stored orders each
+    run.gen_replay('Gen_AprioriBig', 'Gen_AprioriBig.cfg', A, {'seed': run.seed},
+                   env={'VERIF_L1': 12, 'VERIF_L2': 120, 'VERIF_L3': 800}, timeout=900, workers=16,
+                   name='graph families of 12 / 120 / 800 nodes (5 shapes x 4 kind patterns x 7 sources x 3 TTC positions)')
+    if not quick:
+        run.gen_replay('Gen_AprioriBig', 'Gen_AprioriBig.cfg', A, {'seed': run.seed + 1},
+                       env={'VERIF_L1': 7, 'VERIF_L2': 333, 'VERIF_L3': 900}, timeout=1500, workers=16,
+                       name='graph families of 7 / 333 / 900 nodes')
     if quick:
         run.gen_replay('Gen_Apriori', 'Gen_Apriori.cfg', A, {'seed': run.seed},
                        env={'VERIF_N': 3, 'VERIF_KINDS': 'all', 'VERIF_SLICES': 40, 'VERIF_SLICE': run.seed % 40},
